@@ -819,13 +819,17 @@ class Program:
     def trait_impls(self):
         if self._trait_impls is None:
             m = defaultdict(list)
+            ms = defaultdict(list)
             for im in self.impls:
                 if "trait" not in im:
                     continue
+                selfbase = strip_generics(im.get("self_adt") or im["self"].split("<")[0])
                 for it in im["items"]:
                     if it.get("of"):
                         m[strip_generics(it["of"])].append(strip_generics(it["def"]))
+                        ms[strip_generics(it["of"])].append((selfbase, strip_generics(it["def"])))
             self._trait_impls = m
+            self._trait_impls_self = ms
         return self._trait_impls
 
     def callees_of_site(self, c):
@@ -844,6 +848,12 @@ class Program:
         if c.trait:
             # unresolved (generic or dyn) trait call: fan out to every impl in the analysed crates
             impls = self.trait_impls().get(c.callee, [])
+            # when the Self type of the call is a concrete (non-parameter) type, only its impl can be entered
+            selfty = c.targs[0] if c.targs else ""
+            selfbase = strip_generics(selfty.split("<")[0].lstrip("&").replace("mut ", "").strip()) if selfty else ""
+            concrete = ("::" in selfbase and not selfbase.startswith("dyn ")) and " as " not in selfty and not selfty.startswith("impl ")
+            if concrete:
+                impls = [d for (sb, d) in self._trait_impls_self.get(c.callee, []) if sb == selfbase]
             for i in impls:
                 if i in self.bodies:
                     out.add(i)
